@@ -394,6 +394,118 @@ Proof.
   - rewrite (partition_app _ _ _ Hsp). reflexivity.
 Qed.
 
+(* ---- whole reply sequences on one stream ---- *)
+(* an item of the stream: a well-formed reply, or a multi-line reply whose closing line
+   carries another (numeric) code *)
+Inductive item : Type :=
+| Good (r : reply)
+| Bad (code other head : text) (body : list text) (bad : text).
+
+Definition item_ok (it : item) : Prop :=
+  match it with
+  | Good r => reply_ok r
+  | Bad code other head body bad =>
+      good_code code /\ good_code other /\ other <> code /\
+      lf_free head /\ Forall lf_free body /\ lf_free bad
+  end.
+
+Definition item_wire (it : item) : text :=
+  match it with
+  | Good r => reply_wire r
+  | Bad code other head body bad =>
+      wire ((code ++ DASH :: head) :: map (fun l => code ++ DASH :: l) body ++ [other ++ SP :: bad])
+  end.
+
+Definition item_result (it : item) (p : presult) : Prop :=
+  match it with
+  | Good r => p = POk (fst (fst r)) (decoded_info (snd (fst r)) (snd r)) []
+  | Bad code other _ _ _ => exists info, p = PStatusErr code other info []
+  end.
+
+Lemma item_step it k :
+  item_ok it ->
+  exists p, item_result it p /\
+    forall f, parse_seq (S f) (split_lines (item_wire it ++ k)) = p :: parse_seq f (split_lines k).
+Proof.
+  destruct it as [r|code other head body bad]; cbn [item_ok item_wire item_result].
+  - intro Hr. eexists. split; [reflexivity|]. intro f. cbn [parse_seq].
+    rewrite (decode_one r k Hr). reflexivity.
+  - intros [Hc [Ho [Hne [Hh [Hb Hbad]]]]].
+    destruct (mismatch_in_reply code other body bad k Hc Ho Hne Hb Hbad head Hh) as [info Hi].
+    exists (PStatusErr code other info []). split; [exists info; reflexivity|].
+    intro f. cbn [parse_seq]. rewrite Hi. reflexivity.
+Qed.
+
+(* every item is decoded (or rejected) on its own, in order, whatever precedes and follows it,
+   and the stream is exhausted exactly after the last one *)
+Theorem decode_sequence items fuel :
+  Forall item_ok items -> (length items < fuel)%nat ->
+  exists results,
+    parse_seq fuel (split_lines (flat_map item_wire items)) = results ++ [PReset]
+    /\ Forall2 item_result items results.
+Proof.
+  intro Hok. revert fuel. induction items as [|it items IH]; intros fuel Hf.
+  - destruct fuel as [|f]; [cbn in Hf; lia|]. exists []. split; [reflexivity|constructor].
+  - destruct fuel as [|f]; [cbn in Hf; lia|].
+    inversion Hok as [|? ? Hit Hrest]; subst.
+    destruct (item_step it (flat_map item_wire items) Hit) as [p [Hp Hstep]].
+    destruct (IH Hrest f ltac:(cbn in Hf; lia)) as [results [Hres Hall]].
+    exists (p :: results). split; [|constructor; assumption].
+    cbn [flat_map]. rewrite Hstep, Hres. reflexivity.
+Qed.
+
+(* two commands on one stream: the second starts exactly after the reply the first stopped at *)
+Definition command_outcome (expected : list text) (last : reply) (rest : list text) : cresult :=
+  match expected with
+  | [] => COk (fst (fst last)) (decoded_info (snd (fst last)) (snd last)) rest
+  | _ => if any_matches expected (fst (fst last))
+         then COk (fst (fst last)) (decoded_info (snd (fst last)) (snd last)) rest
+         else CStatusErr rest
+  end.
+
+Lemma command_loop' waits last expected wait k fuel :
+  Forall reply_ok waits -> reply_ok last ->
+  Forall (fun r => any_matches wait (fst (fst r)) = true) waits ->
+  any_matches wait (fst (fst last)) = false ->
+  (length waits < fuel)%nat ->
+  command_recv fuel expected wait (split_lines (replies_wire waits ++ reply_wire last ++ k))
+  = command_outcome expected last (split_lines k).
+Proof. intros. unfold command_outcome. apply command_loop; assumption. Qed.
+
+Lemma command_seq_single fuel e w ls :
+  command_seq fuel [(e, w)] ls = [command_recv fuel e w ls].
+Proof. cbn [command_seq]. destruct (command_recv fuel e w ls); reflexivity. Qed.
+
+Lemma command_seq_cons fuel e w c cs ls last rest :
+  command_recv fuel e w ls = command_outcome e last rest ->
+  command_seq fuel ((e, w) :: c :: cs) ls
+  = command_outcome e last [] :: command_seq fuel (c :: cs) rest.
+Proof.
+  intro H. cbn [command_seq]. rewrite H. unfold command_outcome.
+  destruct e as [|m ms]; [reflexivity|].
+  destruct (any_matches (m :: ms) (fst (fst last))); reflexivity.
+Qed.
+
+Theorem command_then_command waits1 last1 e1 w1 waits2 last2 e2 w2 k fuel :
+  Forall reply_ok waits1 -> reply_ok last1 ->
+  Forall (fun r => any_matches w1 (fst (fst r)) = true) waits1 ->
+  any_matches w1 (fst (fst last1)) = false ->
+  Forall reply_ok waits2 -> reply_ok last2 ->
+  Forall (fun r => any_matches w2 (fst (fst r)) = true) waits2 ->
+  any_matches w2 (fst (fst last2)) = false ->
+  (length waits1 < fuel)%nat -> (length waits2 < fuel)%nat ->
+  command_seq fuel [(e1, w1); (e2, w2)]
+    (split_lines (replies_wire waits1 ++ reply_wire last1
+                  ++ replies_wire waits2 ++ reply_wire last2 ++ k))
+  = [command_outcome e1 last1 []; command_outcome e2 last2 (split_lines k)].
+Proof.
+  intros Hw1 Hl1 Hm1 Hn1 Hw2 Hl2 Hm2 Hn2 Hf1 Hf2.
+  rewrite (command_seq_cons fuel e1 w1 (e2, w2) [] _ last1 _
+             (command_loop' waits1 last1 e1 w1 _ fuel Hw1 Hl1 Hm1 Hn1 Hf1)).
+  rewrite command_seq_single.
+  rewrite (command_loop' waits2 last2 e2 w2 k fuel Hw2 Hl2 Hm2 Hn2 Hf2). reflexivity.
+Qed.
+
 (* ---- non-vacuity ---- *)
 Example good_code_250 : good_code [50; 53; 48].
 Proof. split; reflexivity. Qed.
